@@ -1144,3 +1144,18 @@ package iavl
 //@   nosafety
 //@   ensures [direction] less == ite(*ascending, ord((*iter).unsavedFastNodesToSort[i]) < ord((*iter).unsavedFastNodesToSort[j]), ord((*iter).unsavedFastNodesToSort[i]) > ord((*iter).unsavedFastNodesToSort[j]))
 //@   modifies *
+
+// ---------------------------------------------------------------- the index build decision (C07)
+//@ func (*nodeDB).shouldForceFastStorageUpgrade(ndb) (force, err)
+//@   assumed label parsing (strings.Split / strconv.Itoa) is outside the translated subset: forceflag names its answer
+//@   ensures forceflag == force
+//@   ensures err != nil ==> !force
+//@   modifies forceflag, ndb.latestVersion, ndb.legacyLatestVersion, nodeDB.mtx[*]
+
+// the index is (re)built exactly when it is wanted at all and either was never built or is labelled with another version
+//@ func (*MutableTree).IsUpgradeable(tree) (ok, err)
+//@   props C07
+//@   requires tree != nil && tree.ndb != nil
+//@   ensures [decision] err == nil ==> ok == (!tree.skipFastStorageUpgrade && (!(ord(tree.ndb.storageVersion) >= ord("1.1.0")) || forceflag))
+//@   ensures [error-means-no] err != nil ==> !ok
+//@   modifies forceflag, nodeDB.latestVersion[*], nodeDB.legacyLatestVersion[*], nodeDB.mtx[*]
